@@ -363,7 +363,8 @@ def replay_file(path: Path) -> dict:
 
 
 def write_replay(prop: str, failure: dict) -> Path:
-    d = VERIF_DIR / "replays" / prop
+    # VERIF_REPLAY_OUT: where NEW replays are written (mutant runs use a scratch dir)
+    d = Path(os.environ.get("VERIF_REPLAY_OUT", VERIF_DIR / "replays")) / prop
     d.mkdir(parents=True, exist_ok=True)
     h = hashlib.sha1(("/".join(failure["bucket"])).encode()).hexdigest()[:8]
     p = d / f"{failure['claim']}-{h}.json"
